@@ -75,8 +75,6 @@ def gen_case(rng):
             for c in f['cols']:
                 pass
         ck = C.rand_loc_key(rng, f['columns'])
-        while ck[0] in ('mask', 'bseries'):
-            ck = C.rand_loc_key(rng, f['columns'])
         return {'op': 'f_astype', 'f': f, 'ck': ck, 'to': to}, C.rand_layout(rng, f)
     if r < 0.84:
         f = C.rand_frame(rng, 3, 4, index_kind=ik)
